@@ -1,7 +1,7 @@
 SPECIFICATION Spec
 CONSTANTS
   MaxNC = 1
-  MaxNS = 12
+  MaxNS = 11
   Widths <- W12
   Props <- P12
   SlewMode = "zero"
